@@ -82,7 +82,10 @@ def record_traces(ctx, cases, procs=4):
 # ----------------------------------------------------------------------------- TLC steps
 def model_check(ctx, cfgs, workers, concurrent):
     def one(cfg):
-        return cfg, vlib.tlc(MOD, cfg, os.path.join(ctx.scratch, "mc-" + cfg), workers=workers, timeout=1500, heap="4g")
+        t0 = time.time() - ctx.t0
+        r = vlib.tlc(MOD, cfg, os.path.join(ctx.scratch, "mc-" + cfg), workers=workers, timeout=1500, heap="4g")
+        r.span = (round(t0, 1), round(time.time() - ctx.t0, 1))
+        return cfg, r
     with cf.ThreadPoolExecutor(max_workers=concurrent) as ex:
         res = list(ex.map(one, cfgs))
     return res
@@ -93,7 +96,7 @@ def account_mc(ctx, res):
         ctx.states += r.distinct
         ctx.transitions += r.generated
         ctx.tlc_runs.append({"module": MOD, "cfg": cfg, "distinct": r.distinct, "generated": r.generated,
-                             "wall_s": round(r.wall, 1), "rc": r.rc})
+                             "wall_s": round(r.wall, 1), "span_s": list(getattr(r, "span", ())), "rc": r.rc})
         if cfg == MC_DEVIATION:
             if r.rc not in (12, 13) or "Temporal property CancelEndsGoroutine was violated" not in r.out:
                 raise vlib.Infra("deviation config %s (send without ctx.Done) was NOT rejected by TLC - liveness check is vacuous" % cfg)
